@@ -237,8 +237,14 @@ func mustReject(v interface{}) string {
 	if !ok {
 		return "document is not an object"
 	}
-	if _, ok := m["crs"]; !ok {
+	crs, ok := m["crs"]
+	if !ok {
 		return "missing crs"
+	}
+	switch crs.(type) {
+	case string, map[string]interface{}:
+	default:
+		return "crs is neither a string nor an object"
 	}
 	tms, ok := m["tileMatrices"]
 	if !ok {
@@ -247,6 +253,9 @@ func mustReject(v interface{}) string {
 	list, ok := tms.([]interface{})
 	if !ok {
 		return "tileMatrices is not an array"
+	}
+	if len(list) == 0 {
+		return "no tile matrices"
 	}
 	for i, e := range list {
 		tm, ok := e.(map[string]interface{})
@@ -259,6 +268,17 @@ func mustReject(v interface{}) string {
 		}
 		if _, err := strconv.ParseInt(id, 10, 64); err != nil {
 			return fmt.Sprintf("tileMatrices[%d].id %q is not an integer", i, id)
+		}
+		if po, present := tm["pointOfOrigin"]; present {
+			arr, ok := po.([]interface{})
+			if !ok || len(arr) != 2 {
+				return fmt.Sprintf("tileMatrices[%d].pointOfOrigin is not a pair", i)
+			}
+			for _, x := range arr {
+				if _, ok := x.(float64); !ok {
+					return fmt.Sprintf("tileMatrices[%d].pointOfOrigin holds something that is not a number", i)
+				}
+			}
 		}
 		for _, k := range []string{"tileWidth", "tileHeight", "matrixWidth", "matrixHeight", "cellSize", "scaleDenominator"} {
 			f, ok := tm[k].(float64)
@@ -276,8 +296,8 @@ func mustReject(v interface{}) string {
 func checkC16(e *env) {
 	r := e.res
 	r.Rule = "all 14 built-in documents and the test document, decode -> encode -> decode -> encode (equal value, stable encoding, re-encoded document semantically equal to the original: same tree after making the cornerOfOrigin default explicit, " +
-		"numbers compared as float64); documents obtained from them by 1..3 structural mutations (delete a key, drop an array element, replace a value by one of 35 palette values of every JSON kind; one document in eight: an earlier tile matrix takes the id of a later one and is changed at one place) at paths biased to crs, tileMatrices and the tile matrix fields: " +
-		"no panic; accepted documents must survive the round trip; documents with missing crs/tileMatrices, wrong kinds, non-positive or non-numeric sizes, non-integer ids must be rejected; every document also goes through the model (op tmsdoc). " +
+		"numbers compared as float64); every built-in document with each single key or array element deleted (thorough: and each single value replaced by each palette value); documents obtained from them by 1..3 structural mutations (delete a key, drop an array element, replace a value by one of 35 palette values of every JSON kind; one document in eight: an earlier tile matrix takes the id of a later one and is changed at one place) at paths biased to crs, tileMatrices and the tile matrix fields: " +
+		"no panic; accepted documents must survive the round trip; documents with missing crs/tileMatrices (or none), a crs that is neither text nor object, a point of origin that is not a pair of numbers, other wrong kinds, non-positive or non-numeric sizes, non-integer ids must be rejected; every document also goes through the model (op tmsdoc). " +
 		"Non-trivial = a mutated document; distinct by document text."
 	files, _ := filepath.Glob(filepath.Join(repoDir(), "tms20", "tilematrixsets", "*.json"))
 	sort.Strings(files)
@@ -385,6 +405,26 @@ func checkC16(e *env) {
 	}
 	for i, d := range docs {
 		one(names[i], d, false)
+	}
+	// systematically: every built-in document (cut to three tile matrices) with each single key or array element deleted; in the thorough tier
+	// also with each single value replaced by each palette value
+	for i, d := range docs {
+		small := deepCopy(d)
+		if m, ok := small.(map[string]interface{}); ok {
+			if l, ok := m["tileMatrices"].([]interface{}); ok && len(l) > 3 {
+				m["tileMatrices"] = append([]interface{}{}, l[:3]...)
+			}
+		}
+		var paths []path
+		collectPaths(small, nil, &paths)
+		for _, p := range paths {
+			one(names[i]+" with delete "+fmtPath(p), mutateAt(deepCopy(small), p, true, nil), true)
+			if e.tier == "thorough" {
+				for _, v := range palette {
+					one(fmt.Sprintf("%s with %s := %s", names[i], fmtPath(p), canonJSON(v)), mutateAt(deepCopy(small), p, false, deepCopy(v)), true)
+				}
+			}
+		}
 	}
 	n := e.n(6000, 200000)
 	for it := 0; it < n; it++ {
